@@ -231,6 +231,8 @@ class PG:
             tv = f"i{len(self.loopvars)}"
             scoped = True
         n = self.r.choice(["0", "1", "2", "3", "a"])
+        if self.c.nested_boolop and self.r.random() < 0.3:
+            n = self.r.choice(["a or 2", "a and b", "ext(%d, a) or 1" % self.uid()])
         head = f"{p}for {tv} in it({self.uid()}, {n}):"
         if scoped:
             self.loopvars.append(tv)
